@@ -324,7 +324,7 @@ func Array[V any](arguments ...any) col.ArrayLike[V] {
 		var index int = 0
 		var iterator = collection.GetIterator()
 		for iterator.HasNext() {
-			var value = iterator.GetNext().(V)
+			var value = convert[V](iterator.GetNext())
 			index++ // Indices are ORDINAL based.
 			array.SetValue(index, value)
 		}
@@ -399,8 +399,8 @@ func Catalog[K comparable, V any](arguments ...any) col.CatalogLike[K, V] {
 		var iterator = collection.GetIterator()
 		for iterator.HasNext() {
 			var association = iterator.GetNext()
-			var key = association.GetKey().(K)
-			var value = association.GetValue().(V)
+			var key = convert[K](association.GetKey())
+			var value = convert[V](association.GetValue())
 			catalog.SetValue(key, value)
 		}
 	default:
@@ -464,7 +464,7 @@ func List[V any](arguments ...any) col.ListLike[V] {
 		// Convert the values to their real type.
 		var iterator = collection.GetIterator()
 		for iterator.HasNext() {
-			var value = iterator.GetNext().(V)
+			var value = convert[V](iterator.GetNext())
 			list.AppendValue(value)
 		}
 	default:
@@ -535,8 +535,8 @@ func Map[K comparable, V any](arguments ...any) col.MapLike[K, V] {
 		var iterator = collection.GetIterator()
 		for iterator.HasNext() {
 			var association = iterator.GetNext()
-			var key = association.GetKey().(K)
-			var value = association.GetValue().(V)
+			var key = convert[K](association.GetKey())
+			var value = convert[V](association.GetValue())
 			map_.SetValue(key, value)
 		}
 	default:
@@ -608,7 +608,7 @@ func Queue[V any](arguments ...any) col.QueueLike[V] {
 		// Convert the values to their real type.
 		var iterator = collection.GetIterator()
 		for iterator.HasNext() {
-			var value = iterator.GetNext().(V)
+			var value = convert[V](iterator.GetNext())
 			queue.AddValue(value)
 		}
 	default:
@@ -680,7 +680,7 @@ func Set[V any](arguments ...any) col.SetLike[V] {
 			// Convert the values to their real type.
 			var iterator = collection.GetIterator()
 			for iterator.HasNext() {
-				var value = iterator.GetNext().(V)
+				var value = convert[V](iterator.GetNext())
 				set.AddValue(value)
 			}
 		}
@@ -694,7 +694,7 @@ func Set[V any](arguments ...any) col.SetLike[V] {
 		// Convert the values to their real type.
 		var iterator = collection.GetIterator()
 		for iterator.HasNext() {
-			var value = iterator.GetNext().(V)
+			var value = convert[V](iterator.GetNext())
 			set.AddValue(value)
 		}
 	default:
@@ -766,11 +766,23 @@ func Stack[V any](arguments ...any) col.StackLike[V] {
 		// Convert the values to their real type.
 		var iterator = collection.GetIterator()
 		for iterator.HasNext() {
-			var value = iterator.GetNext().(V)
+			var value = convert[V](iterator.GetNext())
 			stack.AddValue(value)
 		}
 	default:
 		stack = class.Make()
 	}
 	return stack
+}
+
+/*
+convert returns the specified parsed value as a value of type V.  An undefined
+value (nil) is only a value of type V when V is an interface type like "any".
+*/
+func convert[V any](value any) V {
+	var result V
+	if value == nil && any(result) == nil {
+		return result
+	}
+	return value.(V)
 }
